@@ -20,7 +20,7 @@ EXTRACTION_DROPS = [
     "docstrings", "type annotations (used only as declared sorts of parameters)", "comments",
     "text of exception messages (an exception is its class)", "__repr__/__str__ of IR classes",
     "decorators are not executed: @property/@classmethod/@staticmethod interpreted structurally, @wraps ignored, "
-    "@cached_method read as transparent (assumed: its cache-key defect is repaired in /repo, the bounded C04/C11/C14 stand-ins exercise the cache)",
+    "@cached_method read as transparent at the decorated methods: justified by the verified contract of utils.cached_method.cached_fn (returns what the decorated method returns for this method and these arguments; memo stays sound) and obligation only-written-in@__cache__",
 ]
 SEMANTIC_ASSUMPTIONS = [
     "S1 int is mathematical Z (exact for CPython)",
@@ -177,6 +177,20 @@ def run_deductive(prop, tier, seed, report):
             if len(samples) < 12:
                 samples.append({"obligation": name, "kind": "frame", "line": 0, "solver": "syntactic-rule",
                                 "clause": f"every assignment to .{a_} in the package is `self.{a_} = ...` inside an __init__, and no __init__ is called on an existing object"})
+    for attr_, owner_ in eng.side.written_only_in:
+        if not any(k.startswith(owner_) for k in funcs):
+            continue
+        n_ob += 1
+        bad = write_once_violations(eng.repo, attr_, allowed_prefix=owner_)
+        name = f"only-written-in@{attr_}"
+        if bad:
+            wo_open.append((name, bad))
+        else:
+            n_dis += 1
+            by_solver["syntactic-rule"] = by_solver.get("syntactic-rule", 0) + 1
+            if len(samples) < 12:
+                samples.append({"obligation": name, "kind": "frame", "line": 0, "solver": "syntactic-rule",
+                                "clause": f"every assignment to .{attr_} in the package is inside {owner_}"})
     report["_wo_open"] = wo_open
     report["deductive"].update({"obligations": n_ob, "discharged": n_dis, "by_solver": by_solver})
     report["samples"] = samples
@@ -191,7 +205,7 @@ def run_deductive(prop, tier, seed, report):
     return report
 
 
-def write_once_violations(repo, attr):
+def write_once_violations(repo, attr, allowed_prefix=None):
     """places in the package that could assign `.attr` of an object other than the one under construction"""
     import ast
     from contracts.sorts import WRITE_ONCE_DYNAMIC_SITES_JUSTIFIED
@@ -199,6 +213,10 @@ def write_once_violations(repo, attr):
     for key, fi in sorted(repo.funcs.items()):
         fn = fi.node
         in_init = fn.name == "__init__"
+        if allowed_prefix is not None:
+            if key.startswith(allowed_prefix):
+                continue
+            in_init = False          # nobody else may assign it, constructors included
         justified = any(key.startswith(j["module"] + "::") for j in WRITE_ONCE_DYNAMIC_SITES_JUSTIFIED)
         for n in ast.walk(fn):
             tgts = []
@@ -220,7 +238,7 @@ def write_once_violations(repo, attr):
                     bad.append(f"{key}:{n.lineno}: {ast.unparse(n)[:80]}")
                 if name in ("setattr", "__setattr__") and not all(isinstance(a, ast.Constant) for a in n.args[1:2]) and not justified:
                     bad.append(f"{key}:{n.lineno}: dynamic {ast.unparse(n)[:80]}")
-                if name == "__init__" and isinstance(f, ast.Attribute):
+                if name == "__init__" and isinstance(f, ast.Attribute) and allowed_prefix is None:
                     recv = f.value
                     is_super = isinstance(recv, ast.Call) and isinstance(recv.func, ast.Name) and recv.func.id == "super"
                     if not (is_super and in_init):
